@@ -105,6 +105,30 @@ def audit(pid):
     return ax, problems
 
 
+def tfverif_closure(mod):
+    """transitive closure of the project's own imports of a module (the .olean files leanchecker replays)"""
+    seen, todo = [], [mod]
+    while todo:
+        m = todo.pop()
+        if m in seen:
+            continue
+        path = os.path.join(LEAN, *m.split('.')) + '.lean'
+        if not os.path.exists(path):
+            continue
+        seen.append(m)
+        for imp in re.findall(r'^import\s+(TFVerif\.[A-Za-z0-9_.]+)', open(path).read(), flags=re.M):
+            todo.append(imp)
+    return sorted(seen)
+
+
+def leanchecker(pid):
+    """independent kernel re-check (leanchecker replays every declaration of the compiled modules)"""
+    mods = tfverif_closure(f'TFVerif.Props.{pid}')
+    t0 = time.time()
+    rc, out = run(['lake', 'env', 'leanchecker'] + mods, cwd=LEAN, timeout=3000)
+    return {'modules': mods, 'ok': rc == 0, 'seconds': round(time.time() - t0, 1), 'output': out[-400:]}
+
+
 def forbidden_tokens():
     hits = []
     for root, _, files in os.walk(os.path.join(LEAN, 'TFVerif')):
@@ -324,6 +348,11 @@ class Check:
             return 2
         obligations = len(declared)
         discharged = len(declared) if ok else 0
+        if ok and tier == 'thorough':
+            lc = leanchecker(pid)
+            report['extra']['leanchecker'] = lc
+            if not lc['ok']:
+                report['broken'].append('leanchecker rejects the compiled proofs: ' + lc['output'])
 
         # 4. correspondence
         rng = random.Random(seed * 1000003 + 17)
